@@ -30,7 +30,11 @@ import (
 )
 
 const T0 = int64(1700000000000) // 2023-11-14 22:13:20 UTC
-const app = "vapp"
+// the application name has two dots (as in "com.example.shop"): the file name is formed from it
+const app = "v.app.x"
+
+// appFile is the application part of the metric file names (dots become dashes).
+const appFile = "v-app-x"
 
 type Config struct {
 	MaxSize  uint64 `json:"max_size"`
@@ -123,7 +127,7 @@ func dataFiles(dir string) []string {
 	var out []string
 	for _, e := range es {
 		n := e.Name()
-		if strings.HasPrefix(n, app+"-metrics.log") && !strings.HasSuffix(n, ".idx") {
+		if strings.HasPrefix(n, appFile+"-metrics.log") && !strings.HasSuffix(n, ".idx") {
 			out = append(out, n)
 		}
 	}
